@@ -193,3 +193,142 @@ func VerifC06Accept() {
 	}
 	nd.Reach("C06.accept")
 }
+
+// ---- deeper nesting on a smaller alphabet ----
+
+var c06DeepAlphabet = []c06Sym{
+	{parser.TextTokenType, "", "", 0},
+	{parser.TagTokenType, "if", "true", 1},
+	{parser.TagTokenType, "for", "x in (1..1)", 1},
+	{parser.TagTokenType, "case", "1", 1},
+	{parser.TagTokenType, "endif", "", 2},
+	{parser.TagTokenType, "endfor", "", 2},
+	{parser.TagTokenType, "endcase", "", 2},
+	{parser.TagTokenType, "else", "", 3},
+	{parser.TagTokenType, "when", "1", 3},
+}
+
+func c06DeepTokens() int {
+	if nd.Thorough() {
+		return 8
+	}
+	return 7
+}
+
+// c06Viable reports whether the prefix can still be completed to an accepted template.
+func c06Viable(seq []c06Sym) (ok bool, depth int) {
+	stack := []string{}
+	for _, s := range seq {
+		switch s.kind {
+		case 1:
+			stack = append(stack, s.name)
+		case 2:
+			if len(stack) == 0 || "end"+stack[len(stack)-1] != s.name {
+				return false, 0
+			}
+			stack = stack[:len(stack)-1]
+		case 3:
+			if len(stack) == 0 || !c06Admits(stack[len(stack)-1], s.name) {
+				return false, 0
+			}
+		}
+	}
+	return true, len(stack)
+}
+
+// c06Expect renders the reference nesting: text pieces are numbered markers; an if renders
+// its main body (condition true), a for renders its body once, a case renders the first
+// when clause (subject 1, when 1) or else.
+func c06Expect(seq []c06Sym) string {
+	type fr struct {
+		name   string
+		active bool // is output currently enabled inside this block
+		taken  bool // a branch of this block has already been selected
+		outer  bool
+	}
+	out := ""
+	enabled := true
+	stack := []fr{}
+	n := 0
+	for _, s := range seq {
+		switch s.kind {
+		case 0:
+			n++
+			if enabled {
+				out += string(rune('a' + n - 1))
+			}
+		case 1:
+			f := fr{name: s.name, outer: enabled}
+			switch s.name {
+			case "if", "for":
+				f.active, f.taken = enabled, true
+			case "case":
+				f.active, f.taken = false, false // content before the first when is not rendered
+			}
+			stack = append(stack, f)
+			enabled = f.active
+		case 3:
+			f := &stack[len(stack)-1]
+			switch {
+			case f.name == "for":
+				// else of a for: rendered only when nothing is selected; (1..1) selects one item
+				f.active = false
+			case f.taken:
+				f.active = false
+			default:
+				f.active, f.taken = f.outer, true
+			}
+			enabled = f.active
+		case 2:
+			f := stack[len(stack)-1]
+			stack = stack[:len(stack)-1]
+			enabled = f.outer
+		}
+	}
+	return out
+}
+
+// VerifC06Deep: every complete, well-nested sequence of up to 7 tokens over
+// {text, if, for, case, their end tags, else, when}: accepted, tree mirrors the nesting,
+// and each piece of text is rendered under exactly the blocks and clauses enclosing it.
+func VerifC06Deep() {
+	maxN := c06DeepTokens()
+	nd.Bound("C06.deep_tokens", maxN)
+	n := nd.Choice(maxN + 1)
+	cfg := render.NewConfig()
+	AddStandardTags(cfg)
+	seq := make([]c06Sym, 0, n)
+	toks := make([]parser.Token, 0, n)
+	texts := 0
+	for i := 0; i < n; i++ {
+		k := nd.IntIn(0, len(c06DeepAlphabet)-1)
+		s := c06DeepAlphabet[k]
+		seq = append(seq, s)
+		ok, depth := c06Viable(seq)
+		nd.Assume(ok && depth <= n-i-1) // prune prefixes that cannot be closed in the tokens left
+		src := "{%" + s.name + " " + s.args + "%}"
+		if s.kind == 0 {
+			texts++
+			src = string(rune('a' + texts - 1))
+		}
+		toks = append(toks, parser.Token{Type: s.typ, Name: s.name, Args: s.args, Source: src})
+	}
+	ast, err := parser.VerifParseTokens(cfg.Config, toks)
+	nd.Assert(err == nil, "well-nested-accepted")
+	if err != nil {
+		return
+	}
+	_, shape := c06Reference(seq)
+	nd.Assert(c06Shape(ast) == shape, "tree-mirrors-nesting")
+	node, cerr := render.VerifCompile(cfg, ast)
+	nd.Assert(cerr == nil, "accepted-compiles")
+	if cerr != nil {
+		return
+	}
+	buf := new(bytes.Buffer)
+	rerr := render.Render(node, buf, map[string]any{}, cfg)
+	if rerr == nil {
+		nd.Assert(buf.String() == c06Expect(seq), "content-rendered-under-its-enclosing-blocks")
+	}
+	nd.Reach("C06.deep")
+}
